@@ -6,6 +6,10 @@
 import ASV.Proofs.RegionsComponents
 import ASV.Proofs.RegionsInv
 import ASV.Proofs.RegionsOrder
+import ASV.Proofs.RegionsHeld
+import ASV.Proofs.RegionsReload
+import ASV.Proofs.RegionsRing
+import ASV.Proofs.RegionsRingShort
 namespace ASV.C06
 open ASV ASV.Regions ASV.Components
 
@@ -23,6 +27,18 @@ open ASV ASV.Regions ASV.Components
       of the group, children = the group's candidate clusters and subregions;
     * no two regions share a base. -/
 theorem regions_are_components_linear (s : State) (h : LinearOK s) :
+    ∃ (s' : State) (groups : List (List Feat)), createRegions s = .ok s' ∧
+      s'.cands = s.cands ∧ s'.subs = s.subs ∧ s'.protos = s.protos ∧
+      IsComponents (areasOf s) (groups.map (·.map toArea)) ∧
+      s'.regions.map view = groups.map expectedRegion ∧
+      s'.regions.Pairwise (fun r r' => ¬ r.loc.SharesBase r'.loc) :=
+  createRegions_linear_components s h.noSpan
+
+/-- **Circular records too**, as long as no candidate cluster or subregion spans the origin: the same
+    statement, with `connect_locations` called with the record length as wrap point throughout the sweep
+    (it returns the line hull for two overlapping spans: `connect_ring_overlap`, from the closed form
+    `connect_ring_closed` of C04). -/
+theorem regions_are_components_no_origin_span (s : State) (h : NoSpanOK s) :
     ∃ (s' : State) (groups : List (List Feat)), createRegions s = .ok s' ∧
       s'.cands = s.cands ∧ s'.subs = s.subs ∧ s'.protos = s.protos ∧
       IsComponents (areasOf s) (groups.map (·.map toArea)) ∧
@@ -95,6 +111,43 @@ theorem no_stale_links (s : State) (hi : Inv s) :
     (∀ i p, s.regionOfCds i = some p → ∃ r ∈ s.regions, r.id = p ∧ i ∈ r.cdses) :=
   ⟨hi.parentA, hi.parentP, hi.cdsLink⟩
 
+/-! ### no stale parent link on any object, held references included -/
+
+/-- After **every** history (adds, constructions, `create_regions()` and `create_regions(candidate_clusters=[…],
+    subregions=[…])` with explicitly passed lists, the four `clear_*`, in any order, linear or circular record),
+    every parent link of every object that was ever constructed — whether it is still in the record's lists or
+    only referenced from outside after a `clear_*` — names a region of the record that lists the object, or a
+    candidate cluster (of the record, or constructed and deliberately not stored) that lists it.  No link
+    points at a region or candidate cluster that is gone.  (`parentOf k` is the `_parent` slot of object `k`;
+    the parent dictionary of the model is never pruned, so removed objects are covered.) -/
+theorem no_stale_parent_after_any_history (len : Int) (circ : Bool) (cds : List Loc) (ops : List Op) (s : State)
+    (h : run { len := len, circular := circ, cds := cds } ops = .ok s) : ParentsLive s :=
+  run_live ops (init_inv len circ cds) (init_live len circ cds) h
+
+/-- one step, from any state satisfying the invariants -/
+theorem no_stale_parent_step (s s' : State) (op : Op) (hi : Inv s) (hp : ParentsLive s) (h : step s op = .ok s') :
+    ParentsLive s' :=
+  step_live op hi hp h
+
+/-! ### the numbers written on features identify the same features after reading the record back -/
+
+/-- `Record.from_biopython` adds protoclusters and subregions again in the order they were written
+    (`bisect_right`: after equal coordinates) and candidate clusters from the last written to the first
+    (`bisect_left`: before equal coordinates).  On a linear record whose lists are in location order — which
+    `numbered_in_location_order_linear` gives for every history — this reproduces each list exactly, also when
+    several areas share their coordinates; with `numbers_are_positions` every feature gets the number that was
+    written on it. -/
+theorem reload_keeps_written_order_linear (s : State) (hl : LineSorted s) :
+    readdInOrder [] s.protos = .ok s.protos ∧ readdInOrder [] s.subs = .ok s.subs ∧
+    readdFromLast [] s.cands.reverse = .ok s.cands := by
+  refine ⟨?_, ?_, ?_⟩
+  · simpa using readdInOrder_same (len := s.len) [] s.protos (by simpa using hl.sP)
+      (fun y hy => hl.locs y (mem5.2 (Or.inl (by simpa using hy))))
+  · simpa using readdInOrder_same (len := s.len) [] s.subs (by simpa using hl.sS)
+      (fun y hy => hl.locs y (mem5.2 (Or.inr (Or.inr (Or.inl (by simpa using hy))))))
+  · simpa using readdFromLast_same (len := s.len) [] s.cands.reverse (by simpa using hl.sC)
+      (fun y hy => hl.locs y (mem5.2 (Or.inr (Or.inl (by simpa using hy)))))
+
 /-! ### numbered in location order (linear records) -/
 
 /-- On a linear record, after **every** history whose added areas are non-empty single spans inside
@@ -157,12 +210,41 @@ theorem clear_regions_resets_links (s : State) (hi : Inv s) :
       obtain ⟨r, hr, _⟩ := hi'.cdsLink i p hp
       simp [clearRegions] at hr
 
+/-- **Circular record, origin-spanning areas included**: whenever `create_regions` returns on a region-less
+    record whose candidate clusters and subregions are well-formed spans of the ring (`RingArea`: a single part
+    inside the record, or `[x, L) + [0, y)` with `0 < y ≤ x < L`), two areas linked by a chain of overlapping areas
+    — around the origin too — are in the same region: no connected component is split over two regions.
+    Together with `create_regions_covers_each_area_once` (each area in exactly one region) and
+    `regions_never_overlap`, every region is a union of whole components.  Ingredients: the region covers every
+    base of its children (`connect_ring_closed`, `connR_covers`, `connR_wf` of C04 with the wrap point
+    `Region.__init__` infers, `regionWrap_ring`), and `add_region` refuses overlapping regions. -/
+theorem ring_components_never_split (s s' : State) (hL : 0 < s.len) (hi : Inv s) (hreg : s.regions = [])
+    (hring : ∀ f ∈ s.cands ++ s.subs, RingArea s.len f.loc) (h : createRegions s = .ok s')
+    (a b : Feat) (ha : a ∈ s.cands ++ s.subs) (hl : Linked (areasOf s) (toArea a) (toArea b)) :
+    ∀ r ∈ s'.regions, a.id ∈ memberIds r → b.id ∈ memberIds r :=
+  ring_components_not_split s s' hL hi hreg hring h a b ha hl
+
+/-- **Circular record**: after `create_regions`, a region that lists an origin-spanning area is the **shortest
+    covering arc** of the areas it lists — it is no longer than, and lies inside, every well-formed span `c` that
+    covers them, whenever such a span shorter than half the record exists (`connect_ring_shortest` of C04 applied
+    to `Region.__init__`, whose inferred wrap point is the record length); a region listing no origin-spanning
+    area is the line hull of the areas it lists. -/
+theorem ring_region_is_shortest_cover (s s' : State) (hL : 0 < s.len) (hi : Inv s) (hreg : s.regions = [])
+    (hring : ∀ f ∈ s.cands ++ s.subs, RingArea s.len f.loc) (h : createRegions s = .ok s') :
+    RegionsShortest s.len s' :=
+  createRegions_shortest s s' hL hi hreg hring h
+
 /-! ### what is *not* proved for circular records (left to the executable spec + correspondence)
 
   `def regions_are_components_ring : Prop :=
      ∀ s, RingOK s → ¬ halfRecordComponent … → ¬ fullRecordClash … →
        ∃ s' groups, createRegions s = .ok s' ∧ IsComponents (areasOf s) groups ∧ (one region per group)`
-  needs the set-of-bases meaning of `connect_locations` on a ring (C04 proves it on a line only) and is
+  for records **with** origin-spanning areas: proved are the case without origin-spanning areas
+  (`regions_are_components_no_origin_span`, full statement incl. success) and, with them, the direction
+  "components are never split" (`ring_components_never_split`) and "a region is the shortest covering arc of
+  what it lists" (`ring_region_is_shortest_cover`); open are success of `create_regions` and "a region lists only
+  one component when every component is shorter than half the record" — this needs the sweep in unrolled
+  coordinates (the running location stays the exact union) on top of `connect_ring_shortest` (C04) and is
   **false** without the two exclusions (witnesses below, `KF-C06-half-record-component`,
   `KF-C06-full-record-order`).  What holds on a ring without any hypothesis is stated above:
   `create_regions_covers_each_area_once`, `regions_never_overlap`, `invariant_all_histories`. -/
